@@ -4,104 +4,93 @@
    [split], [split_s], [ncname] stand for split_uri(uri), split_uri(uri,
    NAME_START_CATEGORIES) and is_ncname, which depend on unicodedata.category;
    the theorems hold for every such function, and [exact f u] is the one fact
-   used about them: if f splits u into (ns, ln) then ns ++ ln = u.
+   used about them: if f splits u into (ns, ln) then ns ++ ln = u
+   ([C17_split_exact] proves it of the executable split_uri for every
+   character classification).
 
-   [bad s] is the trigger of finding F6b: it becomes true when Memory.bind is
-   entered with override=False while the prefix is bound to another namespace
-   and the namespace is bound to some prefix - the only place where the two
-   dictionaries stop being inverse of each other. *)
-From RV Require Import Namespace.Model Namespace.Dict Namespace.StoreInv Namespace.Proofs Namespace.Final Namespace.Trie.
+   The model is of the code after the "fix:" commits for F6a (caches emptied by
+   _store_bind), F6b (store bind without override), F6c (XML namespace in
+   split_uri); the last two were found by this check. *)
+From RV Require Import Namespace.Model Namespace.Dict Namespace.StoreInv Namespace.Proofs Namespace.Final Namespace.Trie Namespace.TrieMgr.
 
-(* After any history of bind / qname / curie / compute_qname(_strict) / normalizeUri /
-   expand_curie / reset operations that stays outside the F6b region: namespaces() lists
-   each prefix once and each namespace once, membership in the listing is lookup by prefix,
-   and lookup by prefix and lookup by namespace are inverse of each other. *)
-Theorem C17_bijection_partial : forall split split_s ncname ops,
+(* After any history of bind (all flag combinations) / qname / curie / compute_qname(_strict)
+   / normalizeUri / expand_curie / reset operations: namespaces() lists each prefix once and
+   each namespace once, membership in the listing is lookup by prefix, and lookup by prefix
+   and lookup by namespace are inverse of each other. *)
+Theorem C17_bijection : forall split split_s ncname ops,
   let s := m_final split split_s ncname m_init ops in
-  bad s = false ->
   NoDup (map fst (p2n s)) /\ NoDup (map snd (p2n s)) /\ NoDup (map fst (n2p s)) /\
   (forall p n, In (p, n) (p2n s) <-> dget (p2n s) p = Some n) /\
   (forall p n, dget (p2n s) p = Some n <-> dget (n2p s) n = Some p).
 Proof. intros split split_s ncname ops. exact (bijection split split_s ncname ops). Qed.
-Print Assumptions C17_bijection_partial.
+Print Assumptions C17_bijection.
 
-(* The full statement (no trigger hypothesis) is false: finding F6b.
-   bind(a, h:e/); bind(b, h:e/a#); bind(a, h:e/a#, override=False, replace=True)
-   leaves  a -> h:e/, b -> h:e/  and  h:e/ -> b, h:e/a# -> b;  qname(h:e/a#x) then
-   answers with prefix b, which is bound to h:e/. *)
-Theorem C17_bijection_refuted :
-  exists split ops,
-    let s := m_final split split (fun _ => true) m_init ops in
-    ~ bij s /\
-    exists s' p ns nm u, m_compute split s u true = (s', inl (p, ns, nm)) /\ dget (p2n s') p <> Some ns.
-Proof.
-  exists w_split, w_f6b. destruct f6b_witness as (_ & H & s' & p & ns & nm & E & D).
-  split; [exact H|]. exists s', p, ns, nm, (w_ea ++ [120%N]). auto.
-Qed.
-Print Assumptions C17_bijection_refuted.
+(* Memory.bind alone: on mutually inverse dictionaries it never raises, keeps them mutually
+   inverse, and with override the prefix is bound to the namespace afterwards. *)
+Theorem C17_store_bind : forall s prefix ns ov, bij s ->
+  snd (store_bind s prefix ns ov) = true /\ bij (fst (store_bind s prefix ns ov)) /\
+  (ov = true -> dget (p2n (fst (store_bind s prefix ns ov))) prefix = Some ns).
+Proof. exact store_bind_good. Qed.
+Print Assumptions C17_store_bind.
 
-(* The trigger never resets: once a history has entered the F6b region all its
-   extensions are outside the scope of the partial theorems. *)
-Theorem C17_trigger_monotone : forall split split_s ncname ops s,
-  bad s = true -> bad (m_final split split_s ncname s ops) = true.
-Proof. intros. now apply m_final_mono. Qed.
-Print Assumptions C17_trigger_monotone.
+(* The store bind as it was before the fix for F6b did not have the property:
+   bind(a, h:e/); bind(b, h:e/a#); bind(a, h:e/a#, override=False) *)
+Theorem C17_old_store_bind_refuted :
+  exists s prefix ns, bij s /\ ~ bij (store_bind_old_noov s prefix ns).
+Proof. eexists. eexists. eexists. exact old_store_bind_witness. Qed.
+Print Assumptions C17_old_store_bind_refuted.
 
 (* The prefix compute_qname (hence qname, curie, n3) answers with is bound to the
    namespace it answers with in the store as it is right after the call, in both
-   directions - also when the answer comes from the cache (this is what the F6a fix
-   buys: _store_bind empties the caches). *)
-Theorem C17_qname_bound_now_partial : forall split split_s ncname ops u gen s' p ns nm,
+   directions - also when the answer comes from the cache. *)
+Theorem C17_qname_bound_now : forall split split_s ncname ops u gen s' p ns nm,
   let s := m_final split split_s ncname m_init ops in
-  bad s = false ->
   m_compute split s u gen = (s', inl (p, ns, nm)) ->
   dget (p2n s') p = Some ns /\ dget (n2p s') ns = Some p.
 Proof.
-  intros split split_s ncname ops u gen s' p ns nm s Hb E.
-  destruct (qname_bound_now split split_s ncname ops u gen s' p ns nm Hb E) as (A & B & _). auto.
+  intros split split_s ncname ops u gen s' p ns nm s E.
+  destruct (qname_bound_now split split_s ncname ops u gen s' p ns nm E) as (A & B & _). auto.
 Qed.
-Print Assumptions C17_qname_bound_now_partial.
+Print Assumptions C17_qname_bound_now.
 
-Theorem C17_strict_bound_now_partial : forall split split_s ncname ops u gen s' p ns nm,
+Theorem C17_strict_bound_now : forall split split_s ncname ops u gen s' p ns nm,
   let s := m_final split split_s ncname m_init ops in
-  bad s = false ->
   m_compute_strict split split_s ncname s u gen = (s', inl (p, ns, nm)) ->
   dget (p2n s') p = Some ns /\ dget (n2p s') ns = Some p /\
   (exact split u -> exact split_s u -> ns ++ nm = u).
 Proof. intros split split_s ncname ops u gen s' p ns nm s. apply strict_bound_now. Qed.
-Print Assumptions C17_strict_bound_now_partial.
+Print Assumptions C17_strict_bound_now.
 
 (* Expanding gives the IRI back: expand_curie(curie(u)) = u, expand_curie(qname(u)) = u
    when the prefix is not empty, and with the empty prefix qname(u) is the bare local name
    whose namespace is the one bound to "".  (A prefix containing ':' cannot be expanded
    by expand_curie, which splits at the first colon.) *)
-Theorem C17_qname_expands_partial : forall split split_s ncname ops u gen s' p ns nm,
+Theorem C17_qname_expands : forall split split_s ncname ops u gen s' p ns nm,
   let s := m_final split split_s ncname m_init ops in
-  bad s = false -> exact split u ->
+  exact split u ->
   m_compute split s u gen = (s', inl (p, ns, nm)) ->
   has_colon p = false ->
   m_expand s' (curie_str (p, ns, nm)) = inl u /\
   (p <> [] -> m_expand s' (qname_str (p, ns, nm)) = inl u) /\
   (p = [] -> qname_str (p, ns, nm) = nm /\ dget (p2n s') [] = Some ns /\ ns ++ nm = u).
 Proof. intros split split_s ncname ops u gen s' p ns nm s. apply qname_expands. Qed.
-Print Assumptions C17_qname_expands_partial.
+Print Assumptions C17_qname_expands.
 
-(* The executable split_uri of the model is exact for every character classification,
-   except on IRIs that start with the XML namespace and contain it a second time ... *)
-Theorem C17_split_exact : forall cat strict u,
-  xml_twice u = false -> exact (split_uri cat strict) u.
+(* The executable split_uri of the model is exact on every IRI, for every character
+   classification. *)
+Theorem C17_split_exact : forall cat strict u, exact (split_uri cat strict) u.
 Proof. exact split_uri_exact. Qed.
 Print Assumptions C17_split_exact.
 
-(* ... where it is not (finding F6c): uri.split(XMLNS)[1] stops at the second occurrence. *)
-Theorem C17_split_refuted :
-  exists cat u ns ln, split_uri cat false u = Some (ns, ln) /\ ns ++ ln <> u.
-Proof. destruct f6c_witness as (u & ns & ln & H). eexists. exists u, ns, ln. exact H. Qed.
-Print Assumptions C17_split_refuted.
+(* uri.split(XMLNS)[1], the local name before the fix for F6c, was not. *)
+Theorem C17_old_xml_split_refuted :
+  exists u, starts_with u XMLNS = true /\ XMLNS ++ xml_local_old u <> u.
+Proof. exact old_xml_split_witness. Qed.
+Print Assumptions C17_old_xml_split_refuted.
 
 (* What the correspondence check evaluates on the implementation's answers holds of the
-   model on every case outside the two trigger regions. *)
-Theorem C17_spec_ok_model : forall c, kf c = 0%N -> spec_ok c (model_obs c) = true.
+   model on every case. *)
+Theorem C17_spec_ok_model : forall c, spec_ok c (model_obs c) = true.
 Proof. exact spec_ok_model. Qed.
 Print Assumptions C17_spec_ok_model.
 
@@ -129,15 +118,14 @@ Proof. exact exp_ok_reading. Qed.
 Print Assumptions C17_exp_ok_reading.
 
 (* non-vacuity: a history with rebinding, a numbered fallback, a generated prefix, a
-   nested namespace bound after a qname of an IRI inside it, and a re-query stays outside
-   the trigger region; the second answer uses the longer namespace *)
+   nested namespace bound after a qname of an IRI inside it, and a re-query; the second
+   answer uses the longer namespace *)
 Example C17_nonvacuous :
   let e := [104; 58; 101; 47]%N in let ea := [104; 58; 101; 47; 97]%N in
   let u := (e ++ [97; 98])%N in
   let ops := [OBind (Some [97]) e true false; OQname u; OBind (Some [97]) ea false false;
               OBind (Some [98]) ea true false; OQname u; OCurie (e ++ [121]) true]%N in
   let c := {| c_cats := [(97, 1); (98, 1); (101, 1); (104, 1); (120, 1); (121, 1)]%N; c_ops := ops |} in
-  kf c = 0%N /\
   map s_res (model_obs c) =
     [RUnit; RQ [97; 58; 97; 98]%N ([97], e, [97; 98])%N (Some u);
      RUnit; RUnit;
@@ -148,22 +136,70 @@ Example C17_nonvacuous :
      [([97], e); ([98], ea)]; [([97], e); ([98], ea)]]%N.
 Proof. vm_compute. repeat split; reflexivity. Qed.
 
-(* get_longest_namespace on a well-formed trie (sibling keys distinct and not prefixes of
-   one another, every key below a node properly extends it) returns a key that is a prefix
-   of the value and that every other such key is a prefix of - the longest one; None iff no
-   key is a prefix of the value.  PARTIAL: that insert_trie keeps a trie well-formed (so
-   that this holds "for any insertion order") is not proved; it is exercised by the
-   correspondence runs and checked exhaustively for 5 nested namespaces below. *)
-Theorem C17_trie_partial : forall t v, wft t ->
+
+(* get_longest_namespace after ANY insertion order: on the trie built by insert_trie from
+   the namespaces vs (in the order given, repetitions allowed) it returns a namespace of vs
+   that is a prefix of the value and that every other such namespace is a prefix of - the
+   longest one; None iff no namespace of vs is a prefix of the value. *)
+Theorem C17_trie : forall vs v,
+  match gln (fold_left insert_trie vs (T [])) v with
+  | Some k => In k vs /\ starts_with v k = true /\
+              forall k', In k' vs -> starts_with v k' = true ->
+                         starts_with k k' = true /\ length k' <= length k
+  | None => forall k', In k' vs -> starts_with v k' = false
+  end.
+Proof.
+  intros vs v. pose proof (gln_build vs v) as H. unfold build in H.
+  destruct (gln (fold_left insert_trie vs (T [])) v) as [k|]; [|exact H].
+  destruct H as (A & B & C). split; [exact A|]. split; [exact B|].
+  intros k' H1 H2. split; [now apply C|]. apply sw_length. now apply C.
+Qed.
+Print Assumptions C17_trie.
+
+(* The invariant behind it: insert_trie keeps a trie well-formed (sibling keys distinct and
+   not prefixes of one another, every key below a node properly extends it) and adds exactly
+   the value to its keys ... *)
+Theorem C17_insert_trie_wellformed : forall t v, wft t ->
+  wft (insert_trie t v) /\
+  forall k, In k (trie_keys (insert_trie t v)) <-> k = v \/ In k (trie_keys t).
+Proof. intros t v H. exact (insert_wft t H v). Qed.
+Print Assumptions C17_insert_trie_wellformed.
+
+(* ... and on a well-formed trie get_longest_namespace returns the longest key that is a
+   prefix of the value. *)
+Theorem C17_gln_wellformed : forall t v, wft t ->
   match gln t v with
   | Some k => In k (trie_keys t) /\ starts_with v k = true /\
               forall k', In k' (trie_keys t) -> starts_with v k' = true -> starts_with k k' = true
   | None => forall k', In k' (trie_keys t) -> starts_with v k' = false
   end.
 Proof. intros t v H. exact (gln_longest t H v). Qed.
-Print Assumptions C17_trie_partial.
+Print Assumptions C17_gln_wellformed.
 
-(* all 120 insertion orders of h:e/ h:e/a h:e/a/ h:e/a/b/ h:e/ab, six IRIs each *)
+(* In every reachable manager state the trie is well-formed, and so is the sub-dictionary
+   self.__strie[namespace] that compute_qname hands to get_longest_namespace: the namespace
+   it picks is the longest known one below the split namespace that is a prefix of the IRI. *)
+Theorem C17_trie_reachable : forall split split_s ncname ops,
+  let s := m_final split split_s ncname m_init ops in
+  wft (trie_ s) /\
+  forall ns0 sub u, find_sub (trie_ s) ns0 = Some sub ->
+    wft sub /\
+    match gln sub u with
+    | Some k => In k (trie_keys sub) /\ starts_with u k = true /\
+                forall k', In k' (trie_keys sub) -> starts_with u k' = true -> starts_with k k' = true
+    | None => forall k', In k' (trie_keys sub) -> starts_with u k' = false
+    end.
+Proof.
+  intros split split_s ncname ops s.
+  assert (W : wft (trie_ s)) by (apply tinv_final, tinv_init).
+  split; [exact W|]. intros ns0 sub u E.
+  assert (Ws : wft sub) by (eapply find_sub_wft; eauto).
+  split; [exact Ws|]. exact (gln_longest sub Ws u).
+Qed.
+Print Assumptions C17_trie_reachable.
+
+(* non-vacuity of C17_trie: all 120 insertion orders of h:e/ h:e/a h:e/a/ h:e/a/b/ h:e/ab, six
+   IRIs each, against a brute-force search *)
 Example C17_trie_all_orders_sample :
   let e := [104; 58; 101; 47]%N in
   let vs := [e; e ++ [97]; e ++ [97; 47]; e ++ [97; 47; 98; 47]; e ++ [97; 98]]%N in
